@@ -1,7 +1,7 @@
 /-
 Compiler correctness (Props/Refine.lean), part 4: statements.
 
-`node_sim` / `nodes_sim`: for every statement of the core `InCoreNode lf inLoop` — template text,
+`node_sim` / `nodes_sim`: for every statement of the core `InCoreNode lf Inc inLoop` — template text,
 `{{ e }}`, `{% set %}` / `{% set_global %}`, `{% if %}` / `{% elif %}` / `{% else %}` (an `elif`
 is an `if` in the else branch), `{% filter %}` sections, `{% set %}` blocks with filter chains,
 and, outside the loop-free core (`lf = false`), `{% for %}` loops (key / value, `{% else %}`,
@@ -25,6 +25,8 @@ Not covered: `include` (the only statement of the fragment that calls the nested
 `block`, component calls.
 -/
 import TeraModel.Lemmas.RefineExpr
+import TeraModel.Lemmas.RefineRunI
+set_option linter.unusedSimpArgs false
 namespace Tera.Refine
 open Tera Tera.Vm Tera.Compiler
 
@@ -148,33 +150,37 @@ theorem execNode_for (fuel : Nat) (eenv : Tera.Env) (ae : Bool) (est : Tera.St) 
       · cases key <;> simp only [forLoopOf] <;> (rename_i h; cases hx : execFor fuel eenv ae _ body <;> rfl)
 /-- The statements `node_sim` covers; `inLoop`: a `for` body is around the statement with nothing
 but `if`s in between (parser.rs `body_contexts`, `Compiler.nodeScoped`). -/
-inductive InCoreNode (lf : Bool) : Bool → Node → Prop
-  | content {inLoop : Bool} (t : String) : InCoreNode lf inLoop (.content t)
-  | expression {inLoop : Bool} {e : Expr} : InCore lf e → InCoreNode lf inLoop (.expression e)
+inductive InCoreNode (lf : Bool) (Inc : String → Prop) : Bool → Node → Prop
+  | content {inLoop : Bool} (t : String) : InCoreNode lf Inc inLoop (.content t)
+  | expression {inLoop : Bool} {e : Expr} : InCore lf e → InCoreNode lf Inc inLoop (.expression e)
   | set {inLoop : Bool} {e : Expr} (name : String) (global : Bool) : InCore lf e →
-      InCoreNode lf inLoop (.set name e global)
+      InCoreNode lf Inc inLoop (.set name e global)
   | «if» {inLoop : Bool} {cnd : Expr} {body falseBody : List Node} : InCore lf cnd →
-      (∀ n ∈ body, InCoreNode lf inLoop n) → (∀ n ∈ falseBody, InCoreNode lf inLoop n) →
-      InCoreNode lf inLoop (.if cnd body falseBody)
-  | «break» : InCoreNode lf true .break
-  | «continue» : InCoreNode lf true .continue
+      (∀ n ∈ body, InCoreNode lf Inc inLoop n) → (∀ n ∈ falseBody, InCoreNode lf Inc inLoop n) →
+      InCoreNode lf Inc inLoop (.if cnd body falseBody)
+  /-- `{% include "name" %}` of a template that may be included (`Inc`; `TemplatesRel` says what
+  that takes), only outside the loop-free core -/
+  | «include» {inLoop : Bool} (name : String) : lf = false → Inc name →
+      InCoreNode lf Inc inLoop (.include name)
+  | «break» : InCoreNode lf Inc true .break
+  | «continue» : InCoreNode lf Inc true .continue
   /-- `{% filter name(k = v, …) %} body {% endfilter %}`: the body is rendered into a capture
   buffer (no `break` / `continue` across it) -/
   | filterSection {inLoop : Bool} (name : String) {kwargs : List (String × Expr)} {body : List Node} :
-      (∀ p ∈ kwargs, InCore lf p.2) → (kwargs.map (·.1)).Nodup → (∀ n ∈ body, InCoreNode lf false n) →
-      InCoreNode lf inLoop (.filterSection name kwargs body)
+      (∀ p ∈ kwargs, InCore lf p.2) → (kwargs.map (·.1)).Nodup → (∀ n ∈ body, InCoreNode lf Inc false n) →
+      InCoreNode lf Inc inLoop (.filterSection name kwargs body)
   /-- `{% set name | f | g %} body {% endset %}` / `set_global`: every filter is a filter node -/
   | blockSet {inLoop : Bool} (name : String) (global : Bool) {filters : List Expr} {body : List Node} :
       (∀ f ∈ filters, ∃ src fname kwargs, f = .filter src fname kwargs
         ∧ (∀ p ∈ kwargs, InCore lf p.2) ∧ (kwargs.map (·.1)).Nodup) →
-      (∀ n ∈ body, InCoreNode lf false n) →
-      InCoreNode lf inLoop (.blockSet name filters body global)
+      (∀ n ∈ body, InCoreNode lf Inc false n) →
+      InCoreNode lf Inc inLoop (.blockSet name filters body global)
   /-- `{% for key, value in target %} body {% else %} elseBody {% endfor %}` (only outside the
   loop-free core); the body is a loop body, the else branch is where the loop is -/
   | forLoop {inLoop : Bool} (key : Option String) (value : String) {target : Expr}
       {body elseBody : List Node} : lf = false → InCore lf target →
-      (∀ n ∈ body, InCoreNode lf true n) → (∀ n ∈ elseBody, InCoreNode lf inLoop n) →
-      InCoreNode lf inLoop (.forLoop key value target body elseBody)
+      (∀ n ∈ body, InCoreNode lf Inc true n) → (∀ n ∈ elseBody, InCoreNode lf Inc inLoop n) →
+      InCoreNode lf Inc inLoop (.forLoop key value target body elseBody)
 
 section
 variable (venv : Vm.Env) (vm : VmCtx) (c : Chunk) (lf : Bool)
@@ -183,9 +189,9 @@ variable (venv : Vm.Env) (vm : VmCtx) (c : Chunk) (lf : Bool)
 def SigRun (loop : Option Nat) (sig : Sig) (base len : Nat) (st : State) (tr : List Nat)
     (st' : State) : Prop :=
   match sig with
-  | .normal => Run venv vm c base st tr (base + len) st'
-  | .brk => ∃ l rest, st'.scope.forLoops = l :: rest ∧ Run venv vm c base st tr l.endIp st'
-  | .cont => ∃ idx, loop = some idx ∧ Run venv vm c base st tr idx st'
+  | .normal => RunI venv vm c base st tr (base + len) st'
+  | .brk => ∃ l rest, st'.scope.forLoops = l :: rest ∧ RunI venv vm c base st tr l.endIp st'
+  | .cont => ∃ idx, loop = some idx ∧ RunI venv vm c base st tr idx st'
 
 /-- What the VM does on the code (at `base`, `len` instructions) of a statement (list) whose
 evaluator result is `r`, started in state `st`. -/
@@ -193,10 +199,10 @@ def NodeOutcome (loop : Option Nat) (r : Except Err (Tera.St × Sig)) (base len 
     Prop :=
   match r with
   | .ok (est', sig) => ∃ tr sc', ScopeSim est'.scope sc' ∧ ends sc'.forLoops = ends st.scope.forLoops
-      ∧ SigRun venv vm c loop sig base len st tr (withSc st est' sc')
+      ∧ SigRunI venv vm c loop sig base len st tr (withSc st est' sc')
       ∧ Within base (base + len) tr ∧ (lf = true → tr.length ≤ len)
   | .error err => reportable err = true →
-      ∃ tr re, Fails venv vm c base st tr re ∧ errMatch err re = true
+      ∃ tr re, FailsI venv vm c base st tr re ∧ errMatch err re = true
         ∧ Within base (base + len) tr ∧ (lf = true → tr.length ≤ len)
 
 /-- The loop of a `for` statement (`forLoopCode`, `len` instructions at `startIdx`), entered with
@@ -204,22 +210,22 @@ the loop on top of the loop stack: it ends at `startIdx + len` (after the closin
 scope that differs from the initial one in the innermost loop only. -/
 def ForOutcome (r : Except Err Tera.St) (startIdx len : Nat) (st : State) : Prop :=
   match r with
-  | .ok est' => ∃ tr sc', Run venv vm c startIdx st tr (startIdx + len) (withSc st est' sc')
+  | .ok est' => ∃ tr sc', RunI venv vm c startIdx st tr (startIdx + len) (withSc st est' sc')
       ∧ ScopeSim est'.scope sc' ∧ ends sc'.forLoops.tail = ends st.scope.forLoops.tail
       ∧ sc'.forLoops ≠ [] ∧ Within startIdx (startIdx + len) tr
   | .error err => reportable err = true →
-      ∃ tr re, Fails venv vm c startIdx st tr re ∧ errMatch err re = true
+      ∃ tr re, FailsI venv vm c startIdx st tr re ∧ errMatch err re = true
         ∧ Within startIdx (startIdx + len) tr
 
 /-- From the start of a `for` statement to the end of its loop (`len` = the iterable, the loop
 set-up and the loop): the loop is still on the loop stack. -/
 def ForHeadOutcome (r : Except Err Tera.St) (base len : Nat) (st : State) : Prop :=
   match r with
-  | .ok est1 => ∃ tr sc1, Run venv vm c base st tr (base + len) (withSc st est1 sc1)
+  | .ok est1 => ∃ tr sc1, RunI venv vm c base st tr (base + len) (withSc st est1 sc1)
       ∧ ScopeSim est1.scope sc1 ∧ ends sc1.forLoops.tail = ends st.scope.forLoops
       ∧ sc1.forLoops ≠ [] ∧ Within base (base + len) tr
   | .error err => reportable err = true →
-      ∃ tr re, Fails venv vm c base st tr re ∧ errMatch err re = true
+      ∃ tr re, FailsI venv vm c base st tr re ∧ errMatch err re = true
         ∧ Within base (base + len) tr
 
 variable (eenv : Tera.Env)
@@ -229,17 +235,17 @@ def LoopCtx (inLoop : Bool) (loop : Option Nat) (st : State) : Prop :=
   inLoop = true → loop.isSome = true ∧ st.scope.forLoops ≠ []
 
 structure NodeSimAt (fuel : Nat) : Prop where
-  node : ∀ (inLoop : Bool) (n : Node), InCoreNode lf inLoop n →
+  node : ∀ (inLoop : Bool) (n : Node), InCoreNode lf Inc inLoop n →
     ∀ (base : Nat) (loop : Option Nat) (st : State) (est : Tera.St), StSim est st →
     LoopCtx inLoop loop st → CodeAt c base (nodeCode base loop n) →
     NodeOutcome venv vm c lf loop (execNode fuel eenv vm.autoescape est n) base
       (nodeCode base loop n).length st
-  nodes : ∀ (inLoop : Bool) (ns : List Node), (∀ n ∈ ns, InCoreNode lf inLoop n) →
+  nodes : ∀ (inLoop : Bool) (ns : List Node), (∀ n ∈ ns, InCoreNode lf Inc inLoop n) →
     ∀ (base : Nat) (loop : Option Nat) (st : State) (est : Tera.St), StSim est st →
     LoopCtx inLoop loop st → CodeAt c base (nodesCode base loop ns) →
     NodeOutcome venv vm c lf loop (execNodes fuel eenv vm.autoescape est ns) base
       (nodesCode base loop ns).length st
-  for_ : ∀ (body : List Node), (∀ n ∈ body, InCoreNode lf true n) →
+  for_ : ∀ (body : List Node), (∀ n ∈ body, InCoreNode lf Inc true n) →
     ∀ (startIdx : Nat) (st : State) (est : Tera.St), StSim est st →
     CodeAt c startIdx (forLoopCode startIdx body) →
     ForOutcome venv vm c (execFor fuel eenv vm.autoescape est body) startIdx
@@ -253,33 +259,33 @@ variable {venv : Vm.Env} {vm : VmCtx} {c : Chunk}
 /-! ### instructions -/
 
 theorem run_writeText {pc : Nat} {t : String} (h : EntryAt c pc (ns (.writeText t))) (st : State) :
-    Run venv vm c pc st [pc] (pc + 1) (st.write t.toList) := by
+    RunI venv vm c pc st [pc] (pc + 1) (st.write t.toList) := by
   obtain ⟨vi, sps, hv, hc, _⟩ := h
   simp only [ns, Pipeline.vinstr, Option.some.injEq] at hv
   subst hv
-  exact Run.one hc (by intro rec; simp only [step])
+  exact RunI.one hc (by intro rec; simp only [step])
 
 theorem writeTop_sim {pc : Nat} (h : EntryAt c pc (ns .writeTop)) (hE : EnvRel venv eenv)
     (ht : reportTargetOk venv vm c = true) (st : State) (est : Tera.St) (hst : StSim est st)
     (v : Value) (rg : SpanRange) (hsp : SpanOk c rg) :
     match writeValue eenv vm.autoescape est v with
-    | .ok est' => Run venv vm c pc (st.push v rg) [pc] (pc + 1) (withSc st est' st.scope)
+    | .ok est' => RunI venv vm c pc (st.push v rg) [pc] (pc + 1) (withSc st est' st.scope)
         ∧ est'.scope = est.scope
-    | .error err => ∃ re, Fails venv vm c pc (st.push v rg) [pc] re ∧ errMatch err re = true := by
+    | .error err => ∃ re, FailsI venv vm c pc (st.push v rg) [pc] re ∧ errMatch err re = true := by
   obtain ⟨vi, sps, hv, hc, _⟩ := h
   simp only [ns, Pipeline.vinstr, Option.some.injEq] at hv
   subst hv
   unfold writeValue
   by_cases hu : v.isUndef = true
   · rw [if_pos hu]
-    refine ⟨.undefinedRender, Fails.here hc ?_, rfl⟩
+    refine ⟨.undefinedRender, FailsI.here hc ?_, rfl⟩
     intro rec
     simp only [step, stepWriteTop, State.push]
     rw [if_pos hu]
     exact renderingError_eq ht hsp _
   · rw [if_neg hu]
     simp only [withSc_write hst]
-    refine ⟨Run.one hc ?_, ?_⟩
+    refine ⟨RunI.one hc ?_, ?_⟩
     · intro rec
       simp only [step, stepWriteTop, State.push]
       rw [if_neg hu]
@@ -288,14 +294,14 @@ theorem writeTop_sim {pc : Nat} (h : EntryAt c pc (ns .writeTop)) (hE : EnvRel v
 
 theorem run_set {pc : Nat} {name : String} {global : Bool}
     (h : EntryAt c pc (ns (setInstr name global))) (st : State) (v : Value) (rg : SpanRange) :
-    Run venv vm c pc (st.push v rg) [pc] (pc + 1)
+    RunI venv vm c pc (st.push v rg) [pc] (pc + 1)
       { st with scope := if global then st.scope.storeGlobal name v else st.scope.storeLocal name v } := by
   obtain ⟨vi, sps, hv, hc, _⟩ := h
   have hv' : vi = .set name global := by
     cases global <;> simp only [ns, setInstr, Pipeline.vinstr, Option.some.injEq, Bool.false_eq_true, if_false, if_true] at hv <;>
       exact hv.symm
   subst hv'
-  refine Run.one hc ?_
+  refine RunI.one hc ?_
   intro rec
   simp only [step, stepSet, State.push]
 
@@ -305,27 +311,27 @@ theorem ends_storeGlobal (sc : Scope) (n : String) (v : Value) :
 
 theorem run_break {pc : Nat} (h : EntryAt c pc (ns .break_)) (st : State) (l : ForLoop)
     (rest : List ForLoop) (hl : st.scope.forLoops = l :: rest) :
-    Run venv vm c pc st [pc] l.endIp st := by
+    RunI venv vm c pc st [pc] l.endIp st := by
   obtain ⟨vi, sps, hv, hc, _⟩ := h
   simp only [ns, Pipeline.vinstr, Option.some.injEq] at hv
   subst hv
-  exact Run.one hc (by intro rec; simp only [step, stepBreak, hl])
+  exact RunI.one hc (by intro rec; simp only [step, stepBreak, hl])
 
 theorem run_capture {pc : Nat} (h : EntryAt c pc (ns .capture)) (st : State) :
-    Run venv vm c pc st [pc] (pc + 1) { st with captures := [] :: st.captures } := by
+    RunI venv vm c pc st [pc] (pc + 1) { st with captures := [] :: st.captures } := by
   obtain ⟨vi, sps, hv, hc, _⟩ := h
   simp only [ns, Pipeline.vinstr, Option.some.injEq] at hv
   subst hv
-  exact Run.one hc (by intro rec; simp only [step])
+  exact RunI.one hc (by intro rec; simp only [step])
 
 theorem run_endCapture {pc : Nat} {hasSpan : Bool} (h : EntryAt c pc (.endCapture, hasSpan))
     (st : State) (buf : List Char) (restCaps : List (List Char)) (hcap : st.captures = buf :: restCaps) :
-    Run venv vm c pc st [pc] (pc + 1)
+    RunI venv vm c pc st [pc] (pc + 1)
       (({ st with captures := restCaps } : State).push (.str true buf) (pc, pc)) := by
   obtain ⟨vi, sps, hv, hc, _⟩ := h
   simp only [Pipeline.vinstr, Option.some.injEq] at hv
   subst hv
-  exact Run.one hc (by intro rec; simp only [step, stepEndCapture, hcap]; rfl)
+  exact RunI.one hc (by intro rec; simp only [step, stepEndCapture, hcap]; rfl)
 
 theorem spanOk_of_hasSpan {pc : Nat} {i : CInstr} (h : EntryAt c pc (i, true)) : SpanOk c (pc, pc) := by
   obtain ⟨vi, sps, _, hc, hs⟩ := h
@@ -342,11 +348,11 @@ theorem filters_sim (hE : EnvRel venv eenv) (hB : BuiltinsRel venv eenv)
       ScopeSim sc st.scope → (filters ≠ [] → SpanOk c rv) →
       CodeAt c base (filtersCode base loop filters) →
       match applyFilters fuel eenv sc filters v with
-      | .ok v' => ∃ tr rv', Run venv vm c base (st.push v rv) tr
+      | .ok v' => ∃ tr rv', RunI venv vm c base (st.push v rv) tr
             (base + (filtersCode base loop filters).length) (st.push v' rv')
           ∧ Within base (base + (filtersCode base loop filters).length) tr
           ∧ (lf = true → tr.length ≤ (filtersCode base loop filters).length)
-      | .error err => reportable err = true → ∃ tr re, Fails venv vm c base (st.push v rv) tr re
+      | .error err => reportable err = true → ∃ tr re, FailsI venv vm c base (st.push v rv) tr re
           ∧ errMatch err re = true ∧ Within base (base + (filtersCode base loop filters).length) tr
           ∧ (lf = true → tr.length ≤ (filtersCode base loop filters).length) := by
   intro filters
@@ -357,7 +363,7 @@ theorem filters_sim (hE : EnvRel venv eenv) (hB : BuiltinsRel venv eenv)
     | zero => simp only [applyFilters]; intro h; simp [reportable] at h
     | succ f =>
       simp only [applyFilters, filtersCode, List.length_nil]
-      exact ⟨[], rv, Run.nil _ _, Within.nil, by bnd⟩
+      exact ⟨[], rv, RunI.nil _ _ _ _, Within.nil, by bnd⟩
   | cons f rest ih =>
     intro hall fuel base loop st sc v rv hsc hrv hcode
     obtain ⟨src, fname, kwargs, rfl, hkw, hnd⟩ := hall f (by simp)
@@ -408,7 +414,7 @@ theorem filters_sim (hE : EnvRel venv eenv) (hB : BuiltinsRel venv eenv)
           have IHr := ih hrest fuel _ loop st sc v1
             (base + (kwargsCode base loop kwargs).length + 1, base + (kwargsCode base loop kwargs).length + 1)
             hsc (fun _ => spanOk_own hentF) hcR
-          have hpre : Run venv vm c base (st.push v rv)
+          have hpre : RunI venv vm c base (st.push v rv)
               (trK ++ [base + (kwargsCode base loop kwargs).length]
                 ++ [base + (kwargsCode base loop kwargs).length + 1])
               (base + (kwargsCode base loop kwargs).length + 1 + 1) (st.push v1 _) :=
@@ -436,16 +442,16 @@ theorem filters_sim (hE : EnvRel venv eenv) (hB : BuiltinsRel venv eenv)
 theorem NodeOutcome.error_of_expr {loop : Option Nat} {err : Err} {base len base1 len1 : Nat}
     {st st1 : State} {tr0 : List Nat}
     (hsub : ExprOutcome venv vm c lf (.error err) base1 len1 st1)
-    (hrun : Run venv vm c base st tr0 base1 st1) (hw0 : Within base (base + len) tr0)
+    (hrun : RunI venv vm c base st tr0 base1 st1) (hw0 : Within base (base + len) tr0)
     (hb : base ≤ base1) (hl : base1 + len1 ≤ base + len) (hlen : lf = true → tr0.length + len1 ≤ len) :
     NodeOutcome venv vm c lf loop (.error err) base len st :=
   ExprOutcome.error_of_sub hsub hrun hw0 hb hl hlen
 
 theorem SigRun.prefix {loop : Option Nat} {sig : Sig} {base len base1 len1 : Nat} {st st1 st' : State}
-    {tr0 tr1 tr2 : List Nat} (hpre : Run venv vm c base st tr0 base1 st1)
-    (hsub : SigRun venv vm c loop sig base1 len1 st1 tr1 st')
-    (hpost : Run venv vm c (base1 + len1) st' tr2 (base + len) st') :
-    SigRun venv vm c loop sig base len st (tr0 ++ tr1 ++ (if sig = .normal then tr2 else [])) st' := by
+    {tr0 tr1 tr2 : List Nat} (hpre : RunI venv vm c base st tr0 base1 st1)
+    (hsub : SigRunI venv vm c loop sig base1 len1 st1 tr1 st')
+    (hpost : RunI venv vm c (base1 + len1) st' tr2 (base + len) st') :
+    SigRunI venv vm c loop sig base len st (tr0 ++ tr1 ++ (if sig = .normal then tr2 else [])) st' := by
   cases sig with
   | normal => simpa [SigRun] using (hpre.trans hsub).trans hpost
   | brk =>
@@ -461,8 +467,8 @@ of the code -/
 theorem NodeOutcome.tail {loop : Option Nat} {r : Except Err (Tera.St × Sig)}
     {base len base1 len1 : Nat} {st : State}
     {tr0 tr2 : List Nat} (hsub : NodeOutcome venv vm c lf loop r base1 len1 st)
-    (hpre : Run venv vm c base st tr0 base1 st) (hw0 : Within base (base + len) tr0)
-    (hpost : ∀ st', Run venv vm c (base1 + len1) st' tr2 (base + len) st')
+    (hpre : RunI venv vm c base st tr0 base1 st) (hw0 : Within base (base + len) tr0)
+    (hpost : ∀ st', RunI venv vm c (base1 + len1) st' tr2 (base + len) st')
     (hw2 : Within base (base + len) tr2)
     (hb : base ≤ base1) (hl : base1 + len1 ≤ base + len)
     (hlen : lf = true → tr0.length + len1 + tr2.length ≤ len) :
@@ -494,7 +500,7 @@ theorem NodeOutcome.seq {loop : Option Nat} {r : Except Err (Tera.St × Sig)}
     {base len base1 len1 : Nat} {st : State} {est1 : Tera.St} {sc1 : Scope} {tr0 : List Nat}
     (hlf : lf = false)
     (hsub : NodeOutcome venv vm c lf loop r base1 len1 (withSc st est1 sc1))
-    (hpre : Run venv vm c base st tr0 base1 (withSc st est1 sc1))
+    (hpre : RunI venv vm c base st tr0 base1 (withSc st est1 sc1))
     (hends1 : ends sc1.forLoops = ends st.scope.forLoops)
     (hw0 : Within base (base + len) tr0) (hb : base ≤ base1) (hl : base1 + len1 = base + len) :
     NodeOutcome venv vm c lf loop r base len st := by
@@ -525,16 +531,16 @@ theorem for_enter (hE : EnvRel venv eenv) (hB : BuiltinsRel venv eenv)
     (est : Tera.St) (hst : StSim est st)
     (hcP : CodeAt c base (forPre base loop key value target)) :
     match evalExpr fuel eenv est.scope target with
-    | .error err => reportable err = true → ∃ tr re, Fails venv vm c base st tr re
+    | .error err => reportable err = true → ∃ tr re, FailsI venv vm c base st tr re
         ∧ errMatch err re = true ∧ Within base (base + (forPre base loop key value target).length) tr
     | .ok tv =>
       match iterItems tv with
-      | none => ∃ tr, Fails venv vm c base st tr .iteration
+      | none => ∃ tr, FailsI venv vm c base st tr .iteration
           ∧ Within base (base + (forPre base loop key value target).length) tr
       | some items =>
-        if key.isSome && !tv.isMap then ∃ tr, Fails venv vm c base st tr .iteration
+        if key.isSome && !tv.isMap then ∃ tr, FailsI venv vm c base st tr .iteration
           ∧ Within base (base + (forPre base loop key value target).length) tr
-        else ∃ tr, Run venv vm c base st tr (base + (forPre base loop key value target).length)
+        else ∃ tr, RunI venv vm c base st tr (base + (forPre base loop key value target).length)
             { st with scope := st.scope.pushLoop (forLoopOf items key value) }
           ∧ Within base (base + (forPre base loop key value target).length) tr := by
   have hlenP : (forPre base loop key value target).length
@@ -612,7 +618,7 @@ theorem LoopCtx.withSc {inLoop : Bool} {loop : Option Nat} {st : State} {est' : 
 theorem for_head_sim (hE : EnvRel venv eenv) (hB : BuiltinsRel venv eenv)
     (ht : reportTargetOk venv vm c = true) (fuel : Nat) (H : NodeSimAt venv vm c lf eenv fuel)
     {target : Expr} (htarget : InCore lf target) {body : List Node}
-    (hbody : ∀ n ∈ body, InCoreNode lf true n)
+    (hbody : ∀ n ∈ body, InCoreNode lf Inc true n)
     (key : Option String) (value : String) (base : Nat) (loop : Option Nat) (st : State)
     (est : Tera.St) (hst : StSim est st)
     (hcP : CodeAt c base (forPre base loop key value target))
@@ -670,7 +676,7 @@ theorem for_head_sim (hE : EnvRel venv eenv) (hB : BuiltinsRel venv eenv)
 
 theorem node_step (hE : EnvRel venv eenv) (hB : BuiltinsRel venv eenv)
     (ht : reportTargetOk venv vm c = true) (fuel : Nat) (H : NodeSimAt venv vm c lf eenv fuel) :
-    ∀ (inLoop : Bool) (n : Node), InCoreNode lf inLoop n →
+    ∀ (inLoop : Bool) (n : Node), InCoreNode lf Inc inLoop n →
     ∀ (base : Nat) (loop : Option Nat) (st : State) (est : Tera.St), StSim est st →
     LoopCtx inLoop loop st → CodeAt c base (nodeCode base loop n) →
     NodeOutcome venv vm c lf loop (execNode (fuel + 1) eenv vm.autoescape est n) base
@@ -684,7 +690,7 @@ theorem node_step (hE : EnvRel venv eenv) (hB : BuiltinsRel venv eenv)
     refine ⟨[base], st.scope, ?_, rfl, ?_, Within.single (Nat.le_refl _) (by omega), by bnd⟩
     · show ScopeSim (est.write t.toList).scope st.scope
       rw [St.write_scope]; exact hst.1
-    · show Run venv vm c base st [base] (base + 1) _
+    · show RunI venv vm c base st [base] (base + 1) _
       rw [withSc_write hst]
       exact run_writeText hcode.1 st
   | @expression _ e he =>
@@ -699,7 +705,7 @@ theorem node_step (hE : EnvRel venv eenv) (hB : BuiltinsRel venv eenv)
     cases hr : evalExpr fuel eenv est.scope e with
     | error err =>
       rw [hr] at IH
-      exact NodeOutcome.error_of_expr IH (Run.nil _ _) Within.nil (Nat.le_refl _) (by omega) (by bnd)
+      exact NodeOutcome.error_of_expr IH (RunI.nil _ _ _ _) Within.nil (Nat.le_refl _) (by omega) (by bnd)
     | ok v =>
       rw [hr] at IH
       obtain ⟨tr1, rg1, hrun1, hsp1, hw1, hl1⟩ := IH
@@ -731,7 +737,7 @@ theorem node_step (hE : EnvRel venv eenv) (hB : BuiltinsRel venv eenv)
     cases hr : evalExpr fuel eenv est.scope e with
     | error err =>
       rw [hr] at IH
-      exact NodeOutcome.error_of_expr IH (Run.nil _ _) Within.nil (Nat.le_refl _) (by omega) (by bnd)
+      exact NodeOutcome.error_of_expr IH (RunI.nil _ _ _ _) Within.nil (Nat.le_refl _) (by omega) (by bnd)
     | ok v =>
       rw [hr] at IH
       obtain ⟨tr1, rg1, hrun1, hsp1, hw1, hl1⟩ := IH
@@ -748,7 +754,7 @@ theorem node_step (hE : EnvRel venv eenv) (hB : BuiltinsRel venv eenv)
       · cases global
         · simp only [Bool.false_eq_true, if_false]; exact ends_storeLocal _ _ _
         · simp only [if_true]; exact ends_storeGlobal _ _ _
-      · show Run venv vm c base st _ _ _
+      · show RunI venv vm c base st _ _ _
         have hfin : withSc st (est.store name v global)
             (if global then st.scope.storeGlobal name v else st.scope.storeLocal name v)
             = { st with scope := if global then st.scope.storeGlobal name v else st.scope.storeLocal name v } := by
@@ -775,7 +781,7 @@ theorem node_step (hE : EnvRel venv eenv) (hB : BuiltinsRel venv eenv)
       cases hr1 : evalExpr fuel eenv est.scope cnd with
       | error err =>
         rw [hr1] at IH1
-        exact NodeOutcome.error_of_expr IH1 (Run.nil _ _) Within.nil (Nat.le_refl _) (by omega) (by bnd)
+        exact NodeOutcome.error_of_expr IH1 (RunI.nil _ _ _ _) Within.nil (Nat.le_refl _) (by omega) (by bnd)
       | ok a =>
         rw [hr1] at IH1
         obtain ⟨tr1, rg1, hrun1, hsp1, hw1, hl1⟩ := IH1
@@ -787,7 +793,7 @@ theorem node_step (hE : EnvRel venv eenv) (hB : BuiltinsRel venv eenv)
           have IH2 := H.nodes _ body hbody _ loop st est hst hctx hc3
           exact IH2.tail (tr2 := []) (hrun1.trans hP)
             ((hw1.mono (Nat.le_refl _) (by omega)).append (Within.single (by omega) (by omega)))
-            (fun st' => (Run.nil _ st').cast (by omega)) Within.nil (by omega) (by omega) (by bnd)
+            (fun st' => (RunI.nil _ _ _ st').cast (by omega)) Within.nil (by omega) (by omega) (by bnd)
         | false =>
           simp only [hta, Bool.false_eq_true, if_false] at hP ⊢
           cases fuel with
@@ -798,7 +804,7 @@ theorem node_step (hE : EnvRel venv eenv) (hB : BuiltinsRel venv eenv)
             simp only [execNodes]
             refine ⟨tr1 ++ [base + (exprCode base loop cnd).length], st.scope, hst.1, rfl, ?_,
               (hw1.mono (Nat.le_refl _) (by omega)).append (Within.single (by omega) (by omega)), by bnd⟩
-            show Run venv vm c base st _ _ _
+            show RunI venv vm c base st _ _ _
             rw [withSc_self hst]
             exact (hrun1.trans hP).cast (by omega)
     | false =>
@@ -812,7 +818,7 @@ theorem node_step (hE : EnvRel venv eenv) (hB : BuiltinsRel venv eenv)
       cases hr1 : evalExpr fuel eenv est.scope cnd with
       | error err =>
         rw [hr1] at IH1
-        exact NodeOutcome.error_of_expr IH1 (Run.nil _ _) Within.nil (Nat.le_refl _) (by omega) (by bnd)
+        exact NodeOutcome.error_of_expr IH1 (RunI.nil _ _ _ _) Within.nil (Nat.le_refl _) (by omega) (by bnd)
       | ok a =>
         rw [hr1] at IH1
         obtain ⟨tr1, rg1, hrun1, hsp1, hw1, hl1⟩ := IH1
@@ -831,7 +837,7 @@ theorem node_step (hE : EnvRel venv eenv) (hB : BuiltinsRel venv eenv)
           have IH3 := H.nodes _ falseBody hfalse _ loop st est hst hctx hc5
           exact IH3.tail (tr2 := []) (hrun1.trans hP)
             ((hw1.mono (Nat.le_refl _) (by omega)).append (Within.single (by omega) (by omega)))
-            (fun st' => (Run.nil _ st').cast (by omega)) Within.nil (by omega) (by omega) (by bnd)
+            (fun st' => (RunI.nil _ _ _ st').cast (by omega)) Within.nil (by omega) (by omega) (by bnd)
   | «break» =>
     intro base loop st est hst hctx hcode
     simp only [nodeCode, CodeAt] at hcode
@@ -889,7 +895,7 @@ theorem node_step (hE : EnvRel venv eenv) (hB : BuiltinsRel venv eenv)
       | cont => simp only; intro h; simp [reportable] at h
       | normal =>
         obtain ⟨trB, sc1, hsc1, hends1, hrunB, hwB, hl0⟩ := IHb
-        have hrunB' : Run venv vm c (base + 1) { st with captures := [] :: st.captures } trB
+        have hrunB' : RunI venv vm c (base + 1) { st with captures := [] :: st.captures } trB
             (base + 1 + (nodesCode (base + 1) loop body).length) (withSc st est1 sc1) := hrunB
         simp only
         cases hcap : est1.captures with
@@ -899,7 +905,7 @@ theorem node_step (hE : EnvRel venv eenv) (hB : BuiltinsRel venv eenv)
           have hEnd := run_endCapture (venv := venv) (vm := vm) hentE (withSc st est1 sc1) buf restCaps hcap
           have hst2 : StSim { est1 with captures := restCaps }
               (withSc st { est1 with captures := restCaps } sc1) := StSim.withSc st hsc1
-          have hEnd' : Run venv vm c (base + 1 + (nodesCode (base + 1) loop body).length)
+          have hEnd' : RunI venv vm c (base + 1 + (nodesCode (base + 1) loop body).length)
               (withSc st est1 sc1) [base + 1 + (nodesCode (base + 1) loop body).length]
               (base + 1 + (nodesCode (base + 1) loop body).length + 1)
               ((withSc st { est1 with captures := restCaps } sc1).push (.str true buf)
@@ -1009,7 +1015,7 @@ theorem node_step (hE : EnvRel venv eenv) (hB : BuiltinsRel venv eenv)
       | cont => simp only; intro h; simp [reportable] at h
       | normal =>
         obtain ⟨trB, sc1, hsc1, hends1, hrunB, hwB, hl0⟩ := IHb
-        have hrunB' : Run venv vm c (base + 1) { st with captures := [] :: st.captures } trB
+        have hrunB' : RunI venv vm c (base + 1) { st with captures := [] :: st.captures } trB
             (base + 1 + (nodesCode (base + 1) loop body).length) (withSc st est1 sc1) := hrunB
         simp only
         cases hcap : est1.captures with
@@ -1017,7 +1023,7 @@ theorem node_step (hE : EnvRel venv eenv) (hB : BuiltinsRel venv eenv)
         | cons buf restCaps =>
           simp only
           have hEnd := run_endCapture (venv := venv) (vm := vm) hentE (withSc st est1 sc1) buf restCaps hcap
-          have hEnd' : Run venv vm c (base + 1 + (nodesCode (base + 1) loop body).length)
+          have hEnd' : RunI venv vm c (base + 1 + (nodesCode (base + 1) loop body).length)
               (withSc st est1 sc1) [base + 1 + (nodesCode (base + 1) loop body).length]
               (base + 1 + (nodesCode (base + 1) loop body).length + 1)
               ((withSc st { est1 with captures := restCaps } sc1).push (.str true buf)
@@ -1124,7 +1130,7 @@ theorem node_step (hE : EnvRel venv eenv) (hB : BuiltinsRel venv eenv)
         cases hlV : sc1.forLoops with
         | nil => exact absurd hlV hne1
         | cons lv lvs =>
-          have hloops : LoopsSim est1.scope.forLoops sc1.forLoops := hsc1.1
+          have hloops : LoopsSim est1.scope.forLoops sc1.forLoops := hsc1.forLoops
           cases hlE : est1.scope.forLoops with
           | nil => rw [hlE, hlV] at hloops; exact hloops.elim
           | cons le les =>
@@ -1143,7 +1149,7 @@ theorem node_step (hE : EnvRel venv eenv) (hB : BuiltinsRel venv eenv)
                (base + (forPre base loop key value target).length + (forLoopCode (base + (forPre base loop key value target).length) body).length))
             have hends2 : ends sc1.popLoop.forLoops = ends st.scope.forLoops := by
               rw [forLoops_popLoop]; exact hends1
-            have hrun3 : Run venv vm c base st
+            have hrun3 : RunI venv vm c base st
                 (trH ++ [(base + (forPre base loop key value target).length + (forLoopCode (base + (forPre base loop key value target).length) body).length)] ++ [(base + (forPre base loop key value target).length + (forLoopCode (base + (forPre base loop key value target).length) body).length) + 1] ++ [(base + (forPre base loop key value target).length + (forLoopCode (base + (forPre base loop key value target).length) body).length) + 1 + 1])
                 (if (Value.bool (!lv.iterated)).isTruthy then (base + (forPre base loop key value target).length + (forLoopCode (base + (forPre base loop key value target).length) body).length) + 1 + 1 + 1
                   else idx + 1 + (nodesCode (idx + 1) loop elseBody).length)
@@ -1177,7 +1183,7 @@ theorem node_step (hE : EnvRel venv eenv) (hB : BuiltinsRel venv eenv)
               exact NodeOutcome.seq hlf IHe (hrun3.cast (by omega)) hends2 hw3 (by omega) (by omega)
 
 theorem nodes_step (fuel : Nat) (H : NodeSimAt venv vm c lf eenv fuel) :
-    ∀ (inLoop : Bool) (ns : List Node), (∀ n ∈ ns, InCoreNode lf inLoop n) →
+    ∀ (inLoop : Bool) (ns : List Node), (∀ n ∈ ns, InCoreNode lf Inc inLoop n) →
     ∀ (base : Nat) (loop : Option Nat) (st : State) (est : Tera.St), StSim est st →
     LoopCtx inLoop loop st → CodeAt c base (nodesCode base loop ns) →
     NodeOutcome venv vm c lf loop (execNodes (fuel + 1) eenv vm.autoescape est ns) base
@@ -1187,9 +1193,9 @@ theorem nodes_step (fuel : Nat) (H : NodeSimAt venv vm c lf eenv fuel) :
   | nil =>
     simp only [execNodes, nodesCode, List.length_nil]
     refine ⟨[], st.scope, hst.1, rfl, ?_, Within.nil, by bnd⟩
-    show Run venv vm c base st [] (base + 0) _
+    show RunI venv vm c base st [] (base + 0) _
     rw [withSc_self hst]
-    exact Run.nil _ _
+    exact RunI.nil _ _ _ _
   | cons n rest =>
     simp only [nodesCode] at hcode ⊢
     rw [CodeAt.append] at hcode
@@ -1210,7 +1216,7 @@ theorem nodes_step (fuel : Nat) (H : NodeSimAt venv vm c lf eenv fuel) :
       cases sig with
       | normal =>
         simp only
-        have hrun1' : Run venv vm c base st tr1 (base + (nodeCode base loop n).length)
+        have hrun1' : RunI venv vm c base st tr1 (base + (nodeCode base loop n).length)
             (withSc st est1 sc1) := hrun1
         have IH2 := H.nodes _ rest (fun m hm => hns m (by simp [hm])) _ loop (withSc st est1 sc1) est1
           (StSim.withSc st hsc1) (hctx.withSc hends1) hc2
@@ -1246,7 +1252,7 @@ theorem nodes_step (fuel : Nat) (H : NodeSimAt venv vm c lf eenv fuel) :
         exact ⟨tr1, sc1, hsc1, hends1, ⟨idx, hl, hr⟩, hw1.mono (Nat.le_refl _) (by omega), by bnd⟩
 
 theorem for_step (fuel : Nat) (H : NodeSimAt venv vm c lf eenv fuel) :
-    ∀ (body : List Node), (∀ n ∈ body, InCoreNode lf true n) →
+    ∀ (body : List Node), (∀ n ∈ body, InCoreNode lf Inc true n) →
     ∀ (startIdx : Nat) (st : State) (est : Tera.St), StSim est st →
     CodeAt c startIdx (forLoopCode startIdx body) →
     ForOutcome venv vm c (execFor (fuel + 1) eenv vm.autoescape est body) startIdx
@@ -1263,7 +1269,7 @@ theorem for_step (fuel : Nat) (H : NodeSimAt venv vm c lf eenv fuel) :
   have hentJ := CodeAt.single.mp hcJ
   simp only [List.length_append, List.length_singleton, ← Nat.add_assoc] at hentJ hcB
   simp only [execFor]
-  have hloops : LoopsSim est.scope.forLoops st.scope.forLoops := hst.1.1
+  have hloops : LoopsSim est.scope.forLoops st.scope.forLoops := hst.1.forLoops
   cases hlE : est.scope.forLoops with
   | nil => intro h; simp [reportable] at h
   | cons l ls =>
@@ -1289,7 +1295,7 @@ theorem for_step (fuel : Nat) (H : NodeSimAt venv vm c lf eenv fuel) :
           forLoops_setTopLoop_cons b hlV
         have hctx1 : LoopCtx true (some startIdx) { st with scope := st.scope.setTopLoop b } :=
           fun _ => ⟨rfl, by rw [hl1]; simp⟩
-        have hrunI : Run venv vm c startIdx st [startIdx] (startIdx + 1)
+        have hrunI : RunI venv vm c startIdx st [startIdx] (startIdx + 1)
             { st with scope := st.scope.setTopLoop b } :=
           run_iterate_next hentI st lv b lvs hlV h2
         have hwI : Within startIdx (startIdx + (forLoopCode startIdx body).length) [startIdx] :=
@@ -1313,7 +1319,7 @@ theorem for_step (fuel : Nat) (H : NodeSimAt venv vm c lf eenv fuel) :
             hwB.mono (by omega) (by rw [hlen]; omega)
           -- the next round of the loop, from `start_idx`
           have recK : ∀ (tr0 : List Nat),
-              Run venv vm c startIdx st tr0 startIdx (withSc st est' scB) →
+              RunI venv vm c startIdx st tr0 startIdx (withSc st est' scB) →
               Within startIdx (startIdx + (forLoopCode startIdx body).length) tr0 →
               ForOutcome venv vm c (execFor fuel eenv vm.autoescape est' body) startIdx
                 (forLoopCode startIdx body).length st := by
@@ -1342,7 +1348,7 @@ theorem for_step (fuel : Nat) (H : NodeSimAt venv vm c lf eenv fuel) :
           cases sig with
           | normal =>
             simp only
-            have hrunB' : Run venv vm c (startIdx + 1) { st with scope := st.scope.setTopLoop b } trB
+            have hrunB' : RunI venv vm c (startIdx + 1) { st with scope := st.scope.setTopLoop b } trB
                 (startIdx + 1 + (nodesCode (startIdx + 1) (some startIdx) body).length)
                 (withSc st est' scB) := hrunB
             exact recK ([startIdx] ++ trB ++ [_])
@@ -1353,7 +1359,7 @@ theorem for_step (fuel : Nat) (H : NodeSimAt venv vm c lf eenv fuel) :
             obtain ⟨idx, hidx, hrunC⟩ := hrunB
             simp only [Option.some.injEq] at hidx
             subst hidx
-            have hrunC' : Run venv vm c (startIdx + 1) { st with scope := st.scope.setTopLoop b } trB
+            have hrunC' : RunI venv vm c (startIdx + 1) { st with scope := st.scope.setTopLoop b } trB
                 startIdx (withSc st est' scB) := hrunC
             exact recK ([startIdx] ++ trB) (hrunI.trans hrunC') (hwI.append hwB')
           | brk =>
@@ -1364,7 +1370,7 @@ theorem for_step (fuel : Nat) (H : NodeSimAt venv vm c lf eenv fuel) :
             simp only [ends, List.map_cons, List.cons.injEq] at hendsB
             have hend : lb.endIp = startIdx + (forLoopCode startIdx body).length := by
               rw [hendsB.1, iterate_endIp h2, hlen]; omega
-            have hrunK' : Run venv vm c (startIdx + 1) { st with scope := st.scope.setTopLoop b } trB
+            have hrunK' : RunI venv vm c (startIdx + 1) { st with scope := st.scope.setTopLoop b } trB
                 lb.endIp (withSc st est' scB) := hrunK
             refine ⟨[startIdx] ++ trB, scB, (hrunI.trans hrunK').cast hend, hscB, ?_, by rw [hlb']; simp,
               hwI.append hwB'⟩
@@ -1392,7 +1398,7 @@ theorem nodeSimAt (hE : EnvRel venv eenv) (hB : BuiltinsRel venv eenv)
 /-- the simulation theorem for one statement -/
 theorem node_sim (hE : EnvRel venv eenv) (hB : BuiltinsRel venv eenv)
     (ht : reportTargetOk venv vm c = true) (fuel : Nat) (inLoop : Bool)
-    (n : Node) (hn : InCoreNode lf inLoop n) (base : Nat) (loop : Option Nat) (st : State)
+    (n : Node) (hn : InCoreNode lf Inc inLoop n) (base : Nat) (loop : Option Nat) (st : State)
     (est : Tera.St) (hst : StSim est st) (hctx : LoopCtx inLoop loop st)
     (hcode : CodeAt c base (nodeCode base loop n)) :
     NodeOutcome venv vm c lf loop (execNode fuel eenv vm.autoescape est n) base
@@ -1402,7 +1408,7 @@ theorem node_sim (hE : EnvRel venv eenv) (hB : BuiltinsRel venv eenv)
 /-- the simulation theorem for a statement list -/
 theorem nodes_sim (hE : EnvRel venv eenv) (hB : BuiltinsRel venv eenv)
     (ht : reportTargetOk venv vm c = true) (fuel : Nat) (inLoop : Bool)
-    (ns : List Node) (hns : ∀ n ∈ ns, InCoreNode lf inLoop n) (base : Nat) (loop : Option Nat)
+    (ns : List Node) (hns : ∀ n ∈ ns, InCoreNode lf Inc inLoop n) (base : Nat) (loop : Option Nat)
     (st : State) (est : Tera.St) (hst : StSim est st) (hctx : LoopCtx inLoop loop st)
     (hcode : CodeAt c base (nodesCode base loop ns)) :
     NodeOutcome venv vm c lf loop (execNodes fuel eenv vm.autoescape est ns) base
